@@ -20,7 +20,7 @@ import tempfile
 from vlib import hlib
 
 hlib.require_repo_src()
-from srctools.filesys import FileSystemChain, RawFileSystem  # noqa: E402
+from srctools.filesys import FileSystemChain, RawFileSystem, RootEscapeError  # noqa: E402
 from srctools.packlist import unify_path  # noqa: E402
 
 BS = '\\'
@@ -83,7 +83,8 @@ def read_tag(fobj) -> list:
     """[real path, content tag] of an opened file."""
     with fobj:
         data = fobj.read(64)
-        real = os.path.realpath(fobj.name)
+        name = getattr(fobj, 'name', None)     # where the OS says the handle points, when it says so
+        real = os.path.realpath(name) if isinstance(name, str) else ''
     if real.startswith(WDIR[0] + '/'):
         real = '~' + real[len(WDIR[0]):]
     if isinstance(data, bytes):
@@ -91,11 +92,18 @@ def read_tag(fobj) -> list:
     return [real, data if data in WORLD.values() else '?' + data[:16]]
 
 
+def exc_class(exc: BaseException) -> str:
+    """The statement fixes one error type (RootEscapeError); every OS error is 'no such file'."""
+    if isinstance(exc, RootEscapeError):
+        return 'RootEscapeError'
+    return 'OSError' if isinstance(exc, OSError) else type(exc).__name__
+
+
 def attempt(fn) -> dict:
     try:
         return {'e': '', 'files': [fn()]}
     except Exception as exc:   # the type name is the outcome; TLC decides whether it is acceptable
-        return {'e': type(exc).__name__, 'files': []}
+        return {'e': exc_class(exc), 'files': []}
 
 
 def lands(w: World, chain: bool, name: str) -> str:
@@ -118,7 +126,7 @@ def run_input(w: World, cfg: dict, toks: list, body, src: str) -> dict:
     try:
         has = {'e': '', 'v': bool(name in fs)}
     except Exception as exc:
-        has = {'e': type(exc).__name__, 'v': False}
+        has = {'e': exc_class(exc), 'v': False}
     get = attempt(lambda: read_tag(fs[name].open_bin()))
     ob = attempt(lambda: read_tag(fs.open_bin(name)))
     os_ = attempt(lambda: read_tag(fs.open_str(name)))
@@ -131,7 +139,7 @@ def run_input(w: World, cfg: dict, toks: list, body, src: str) -> dict:
             walk['files'].append(read_tag(f.open_bin()))
         walk['files'].sort()
     except Exception as exc:
-        walk = {'e': type(exc).__name__, 'files': [], 'trunc': False}
+        walk = {'e': exc_class(exc), 'files': [], 'trunc': False}
     given = w.root_given(cfg['form'])
     return {'k': 'res', 'src': src, 'cfg': cfg, 'body': body, 'b': w.base, 'pfx': ['sub'],
             'rootstr': '/' + '/'.join(given), 'toks': toks, 'str': name,
